@@ -347,6 +347,10 @@ func c03replay(c *Ctx, lines []string) {
 			c03embedded(c)
 			continue
 		}
+		if len(f) >= 6 && f[0] == "history" {
+			c03history(c, f[2], f[3], unhxl(f[4]), c03parseEvents(f[5]))
+			continue
+		}
 		if len(f) >= 4 && f[0] == "prover" {
 			c03prover(c, c03parseChain(f[2]), c03parseIdx(f[3]), false)
 			continue
@@ -528,6 +532,199 @@ func (g c03gen) chain(n int) []c03hdr {
 		ch[j] = c03hdr{diff: d, extra: g.r.Bytes(1 + g.r.Intn(6))}
 	}
 	return ch
+}
+
+// ---------------------------------------------------------------- histories on ONE validator (the summaries cache is state)
+//
+//	history <consts> <oraclemode> <k0> <true summaries> <events> | ok <verdict_1,..,verdict_n> <cache_1/../cache_n>
+//
+//	oraclemode  nil (the validator has no oracle) | scripted (the oracle answers what the event says)
+//	k0          the provider's cache starts as the first k0 true summaries
+//	events      ';' separated, each  number~hdr~hash~proofhex~oracle~truth ; oracle = err | <m> (the first m true summaries: the
+//	            oracle's list only ever grows, every answer is a prefix of the eventual list)
+//	verdict     ok | e | p        cache_i = indices (into the true list) of the provider's cache after call i, '.' separated ('-' empty, '?' unknown)
+type c03event struct {
+	number      uint64
+	hdr         string
+	hash, proof []byte
+	oracle      string
+	truth       string
+}
+
+func c03eventsField(evs []c03event) string {
+	p := make([]string, len(evs))
+	for i, e := range evs {
+		p[i] = fmt.Sprintf("%d~%s~%s~%s~%s~%s", e.number, e.hdr, hx(e.hash), hx(e.proof), e.oracle, e.truth)
+	}
+	return strings.Join(p, ";")
+}
+func c03parseEvents(s string) []c03event {
+	var evs []c03event
+	for _, e := range strings.Split(s, ";") {
+		f := strings.Split(e, "~")
+		n, _ := strconv.ParseUint(f[0], 10, 64)
+		evs = append(evs, c03event{number: n, hdr: f[1], hash: unhx(f[2]), proof: unhx(f[3]), oracle: f[4], truth: f[5]})
+	}
+	return evs
+}
+
+func c03history(c *Ctx, mode string, k0s string, truthList [][]byte, evs []c03event) {
+	k0, _ := strconv.Atoi(k0s)
+	orc := &c03oracle{}
+	var oracle validation.Oracle
+	if mode == "scripted" {
+		oracle = orc
+	}
+	v := validation.VerifNewHeaderValidator(nil, nil, c03summaries(truthList[:k0]), oracle)
+	index := map[string]int{}
+	for i, t := range truthList {
+		index[string(t)] = i
+	}
+	var verdicts, caches []string
+	for _, e := range evs {
+		if e.oracle == "err" {
+			orc.fail, orc.sums = true, nil
+		} else {
+			m, _ := strconv.Atoi(e.oracle)
+			orc.fail, orc.sums = false, c03summaries(truthList[:m])
+		}
+		var err error
+		p, _ := guard(func() { err = v.ValidateHeaderAndProof(c03header(e.number, unhx(e.hdr[4:])), e.proof) })
+		switch {
+		case p:
+			verdicts = append(verdicts, "p")
+		case err != nil:
+			verdicts = append(verdicts, "e")
+		default:
+			verdicts = append(verdicts, "ok")
+		}
+		_, _, cache := v.VerifAccumulators()
+		ids := make([]string, len(cache))
+		for i, r := range cache {
+			if j, ok := index[string(r)]; ok {
+				ids[i] = strconv.Itoa(j)
+			} else {
+				ids[i] = "?"
+			}
+		}
+		if len(ids) == 0 {
+			caches = append(caches, "-")
+		} else {
+			caches = append(caches, strings.Join(ids, "."))
+		}
+		c.Count("history_step")
+	}
+	c.Count("history")
+	c.Emit("history %s %s %d %s %s | ok %s %s", c03constField(), mode, k0, hxl(truthList), c03eventsField(evs), strings.Join(verdicts, ","), strings.Join(caches, "/"))
+}
+
+// one honest (header, proof) per summary period; the true summaries list is made of the roots these proofs fold to
+type c03period struct {
+	number      uint64
+	hdr         string
+	hash, proof []byte
+	slot        uint64
+}
+
+func (g c03gen) periods(n int) (ps []c03period, truthList [][]byte) {
+	for j := 0; j < n; j++ {
+		era := 2 + g.r.Intn(2)
+		k := g.postMerge(g.randNumber(era), era, c03slot(era, uint64(j), g.r.U64()%8192), uint64(j+1), "nil", "honest")
+		ps = append(ps, c03period{number: k.number, hdr: k.hdr, hash: k.hash, proof: k.proof, slot: binary.LittleEndian.Uint64(k.proof[len(k.proof)-8:])})
+		truthList = append(truthList, k.sums.ent[uint64(j)])
+	}
+	return
+}
+
+// event for period j: honest, or the honest proof of period j re-claimed `back` periods earlier, or with one node corrupted
+func (g c03gen) event(ps []c03period, j int, back int, corrupt bool, oracle string, available bool) c03event {
+	p := ps[j]
+	e := c03event{number: p.number, hdr: p.hdr, hash: p.hash, proof: append([]byte{}, p.proof...), oracle: oracle, truth: "honest"}
+	switch {
+	case back != 0:
+		binary.LittleEndian.PutUint64(e.proof[len(e.proof)-8:], p.slot-uint64(back)*8192)
+		e.truth = fmt.Sprintf("wrongslot-period-%d-as-%d", j, j-back)
+	case corrupt:
+		e.proof[g.r.Intn(len(e.proof)-8)] ^= 0x04
+		e.truth = "corrupt"
+	case !available:
+		e.truth = "unknown-period" // honest, but neither the cache nor the oracle knows the summary yet
+	}
+	return e
+}
+
+func (g c03gen) histories(nRandom int) {
+	c := g.c
+	str := strconv.Itoa
+	{
+		// the list grows 3 -> 6 -> 8; requests skip periods, go back, repeat; re-claims across the skipped gap
+		ps, tl := g.periods(8)
+		evs := []c03event{
+			g.event(ps, 1, 0, false, str(3), true),  // cache: 3
+			g.event(ps, 2, 0, false, str(3), true),  // hit
+			g.event(ps, 4, 0, false, str(3), false), // not known yet
+			g.event(ps, 5, 0, false, str(6), true),  // skips periods 3 and 4
+			g.event(ps, 3, 0, false, str(6), true),  // back into the gap
+			g.event(ps, 5, 2, false, str(6), true),  // period 5 claimed as period 3
+			g.event(ps, 4, 0, false, "err", true),   // cached by now: the failing oracle is not asked
+			g.event(ps, 7, 0, false, str(8), true),
+		}
+		c03history(c, "scripted", "0", tl, evs)
+	}
+	{
+		// a pre-filled cache, an oracle that first fails; one big jump; re-claims by exactly the jump width
+		ps, tl := g.periods(8)
+		evs := []c03event{
+			g.event(ps, 0, 0, false, "err", true),
+			g.event(ps, 3, 0, false, "err", false),
+			g.event(ps, 7, 0, false, str(8), true), // cache 2 -> 8, gap of 5
+			g.event(ps, 2, 0, false, str(8), true),
+			g.event(ps, 7, 5, false, str(8), true), // period 7 claimed as period 2
+			g.event(ps, 6, 0, true, str(8), true),
+			g.event(ps, 7, 0, false, str(8), true), // repeat
+		}
+		c03history(c, "scripted", "2", tl, evs)
+	}
+	{
+		// no oracle at all: only the initial cache
+		ps, tl := g.periods(4)
+		evs := []c03event{g.event(ps, 2, 0, false, "0", true), g.event(ps, 3, 0, false, "0", false), g.event(ps, 3, 1, false, "0", true), g.event(ps, 0, 0, false, "0", true)}
+		c03history(c, "nil", "3", tl, evs)
+	}
+	for h := 0; h < nRandom; h++ {
+		n := 4 + g.r.Intn(5)
+		ps, tl := g.periods(n)
+		k0 := g.r.Intn(3)
+		known, m := k0, k0
+		var evs []c03event
+		for i, cnt := 0, 3+g.r.Intn(6); i < cnt; i++ {
+			if g.r.Intn(2) == 0 && m < n {
+				m += 1 + g.r.Intn(n-m)
+			}
+			oracle := str(m)
+			if g.r.Intn(6) == 0 {
+				oracle = "err"
+			}
+			j := g.r.Intn(n)
+			avail := j < known || (oracle != "err" && j < m)
+			back, corrupt := 0, false
+			switch g.r.Intn(4) {
+			case 0:
+				if j > 0 {
+					back = 1 + g.r.Intn(j)
+				}
+			case 1:
+				corrupt = g.r.Intn(2) == 0
+			}
+			evs = append(evs, g.event(ps, j, back, corrupt, oracle, avail))
+			// the cache is replaced when the oracle had to be asked and knew the requested index
+			req := j - back
+			if req >= known && oracle != "err" && req < m {
+				known = m
+			}
+		}
+		c03history(c, "scripted", str(k0), tl, evs)
+	}
 }
 
 // chains with a partial last epoch (and, in thorough, full epochs before it)
@@ -1130,5 +1327,10 @@ func runC03(c *Ctx) {
 		g.prover([]int{1, 3, 20})
 	}
 	c03bhwp(c, g.chain(3), 1)
+	if thorough {
+		g.histories(60)
+	} else {
+		g.histories(2)
+	}
 	g.random(nRandom)
 }
